@@ -6,7 +6,7 @@ import session_checks as sc
 
 PROPS = ["C13"]
 
-CAUSES = ["peer_close", "peer_reset", "write_error", "peer_stops_reading", "local_close", "handler_stop", "timer_disconnect"]
+CAUSES = ["peer_close", "peer_reset", "read_timeout", "write_error", "peer_stops_reading", "local_close", "handler_stop", "timer_disconnect"]
 PHASES = ["prelogon", "handshake", "logged", "logout"]
 
 
